@@ -213,7 +213,7 @@ def run(ctx):
                     tot = sum(p.values())
                     if "closed_form" in c:
                         stats["long_contexts"] += 1
-                        bad = [t for t in toks if abs(p.get(t, 0.0) - float(Fraction(c["closed_form"][t]))) > 1e-9]
+                        bad = [t for t in toks if not (abs(p.get(t, 0.0) - float(Fraction(c["closed_form"][t]))) <= 1e-9)]
                         if bad:
                             semantic.append(_viol(c, hs, name + ".p_next", f"a^{len(cx)}", {"impl": p, "closed_form": c["closed_form"]}))
                         else:
@@ -223,19 +223,19 @@ def run(ctx):
                         o = oracle[ci]
                         if o is None:
                             stats["nonviable_contexts"] += 1
-                            if any(abs(v) > 1e-12 for v in p.values()):
+                            if any(not (abs(v) <= 1e-12) for v in p.values()):
                                 semantic.append(_viol(c, hs, name + ".p_next", cx, {"impl": p, "expected": "all zero (no string extends the context)"}))
                             else:
                                 traces += 1
                         else:
                             stats["viable_contexts"] += 1
                             bad = [t for t in toks if not common.close(Fraction(p.get(t, 0.0)), o[t], 1e-7, 1e-10)]
-                            if bad or abs(tot - 1) > 1e-9:
+                            if bad or not (abs(tot - 1) <= 1e-9):
                                 semantic.append(_viol(c, hs, name + ".p_next", cx, {"impl": p, "prefix_weight_ratio": {t: str(float(v)) for t, v in o.items()}, "sum": tot}))
                             else:
                                 traces += 1
                     else:
-                        if tot > 1e-12 and abs(tot - 1) > 1e-8:
+                        if tot != tot or (tot > 1e-12 and not (abs(tot - 1) <= 1e-8)):
                             semantic.append(_viol(c, hs, name + ".p_next", cx, {"impl": p, "sum": tot}))
                         else:
                             traces += 1
@@ -296,7 +296,7 @@ def run(ctx):
                         continue
                     evaluations += 1
                     stats["backend_comparisons"] += 1
-                    if any(abs(p.get(t, 0.0) - q.get(t, 0.0)) > 1e-8 for t in toks):
+                    if any(not (abs(p.get(t, 0.0) - q.get(t, 0.0)) <= 1e-8) for t in toks):
                         semantic.append(_viol(c, hs, f"{names[0]}_vs_{a_}", cx, {names[0]: p, a_: q}))
                     else:
                         traces += 1
